@@ -129,6 +129,12 @@ def verdict_root_stub(c, success="true", prec="zero", log=None, max_fail=2, dive
             # guess it was started from - two systems in identical situations get identical roots, anything else is a different term
             aa = list(additional_args)
             args_ = list(flat(c, x0)) + [aa[1]] + list(flat(c, aa[2])) + [aa[3]] if len(aa) >= 4 else list(flat(c, x0))
+            if congruent == "with_jacobian":
+                # ... and of the residual and Jacobian it is handed: both are EVALUATED here through the real code (the real algebraic
+                # system calls the user's rhs through DiffRHS, the real block Jacobian uses the finite-difference rhs Jacobian)
+                args_ = args_ + list(flat(c, f(x0, *additional_args)))
+                if jac is not None:
+                    args_ = args_ + list(flat(c, jac(x0, *additional_args)))
             K = c.uf("Kroot", args_, n, fresh=False)
         else:
             K = c.uf("Kroot", [], n, fresh=True)
